@@ -10,8 +10,8 @@ Definition is_prim (t : ty) : bool :=
 Definition ip_item_wfb (it : ip_item) : bool :=
   match it with
   | IpRange4 _ _ | IpRange6 _ _ => true
-  | IpCidr4 a n => ((0 <=? n) && (n <=? 32) && (0 <=? a) && (a <? 2 ^ 32) && (a mod 2 ^ (32 - n) =? 0))%Z
-  | IpCidr6 a n => ((0 <=? n) && (n <=? 128) && (0 <=? a) && (a <? 2 ^ 128) && (a mod 2 ^ (128 - n) =? 0))%Z
+  | IpCidr4 a n => ((0 <=? n) && (n <=? 32) && (a mod 2 ^ (32 - n) =? 0))%Z
+  | IpCidr6 a n => ((0 <=? n) && (n <=? 128) && (a mod 2 ^ (128 - n) =? 0))%Z
   end.
 
 (* index kind matching the container: [n] on arrays, ["k"] on maps, [*] on both *)
